@@ -135,11 +135,13 @@ def status(  # noqa: C901, PLR0912
 
     logger.debug("Collecting status from '%s'", odb.path)
     if index and hashes:
-        if dir_objs:
-            exists = hashes.intersection(
-                _indexed_dir_hashes(odb, index, dir_objs, name, cache_odb, jobs=jobs)
-            )
-            hashes.difference_update(exists)
+        # NOTE: the index is validated (and cleared if an indexed .dir is gone
+        # from the ODB) for requests without directories too, a stale index
+        # would otherwise vouch for files the ODB no longer has
+        exists = hashes.intersection(
+            _indexed_dir_hashes(odb, index, dir_objs, name, cache_odb, jobs=jobs)
+        )
+        hashes.difference_update(exists)
         if hashes:
             exists.update(index.intersection(hashes))
             hashes.difference_update(exists)
